@@ -53,9 +53,13 @@ func c08(args []string) {
 		if budget--; budget < 0 {
 			panic(fmt.Errorf("mark budget exceeded"))
 		}
+		if cur < 0 {
+			return a[1] // a warm-up evaluation: not part of any trace
+		}
 		out.Emit(N{"t": cur, "ev": "mark", "id": int(a[0].(slip.Fixnum)), "v": c01Project(a[1])})
 		return a[1]
 	})
+	c01DefineHeld()
 	s := slip.NewScope()
 	tmp, _ := os.MkdirTemp("", "c08-")
 	defer os.RemoveAll(tmp)
@@ -77,7 +81,7 @@ func c08(args []string) {
 				out.Emit(N{"t": cur, "ev": "end", "v": []any{N{"k": "err", "c": o.Class}}, "src": src, "msg": fmt.Sprintf("%.160s", o.Msg)})
 			}
 		}
-		for variant := 0; variant <= 10; variant++ {
+		for variant := 0; variant <= 11; variant++ {
 			if 6 <= variant && variant <= 8 {
 				continue // emitted with variant 0
 			}
@@ -190,6 +194,45 @@ func c08(args []string) {
 					}
 				}
 				end(h.Eval(s, src), src)
+			case 11:
+				// every function is first a stub; the main form is read once and evaluated against the stubs (not recorded),
+				// so that its call sites are compiled; then the real definitions follow, callers first (their call sites are
+				// compiled while the callee is still the stub), and the same code object of the main form is evaluated again
+				stubs := make([]string, len(names))
+				for i, n := range names {
+					stubs[i] = fmt.Sprintf("(defun %s%s (&rest other) -1)", n, suffix)
+				}
+				var code slip.Code
+				ok := h.Try(func() slip.Object {
+					for _, d := range stubs {
+						for _, form := range slip.ReadString(d, s) {
+							s.Eval(form, 0)
+						}
+					}
+					code = slip.ReadString(src, s)
+					return nil
+				}).OK()
+				run := func() h.Outcome {
+					return h.Try(func() slip.Object {
+						var v slip.Object
+						for _, form := range code {
+							v = s.Eval(form, 0)
+						}
+						return v
+					})
+				}
+				if ok {
+					cur, budget = -1, 4000
+					_ = run()
+				}
+				start(id)
+				if !ok {
+					end(h.Outcome{Class: "go:stub", Msg: "could not define the stubs"}, src)
+					continue
+				}
+				if define(reversed) {
+					end(run(), src)
+				}
 			}
 		}
 	})
